@@ -112,7 +112,7 @@ def radd_task(task):
     bindir, n, ts = task
     sh = Shard()
     L = leap.Leaps()
-    ts = [t for t in ts if t >= L.ts[0] + 10 and t + n >= L.ts[0] + 10]
+    ts = [t for t in ts if t >= 0 and t + n >= 0]
     if not ts:
         return sh
     lines = [civ(t) for t in ts]
@@ -164,7 +164,8 @@ def main(tier, seed):
     for a in anchors:
         tasks.append(("rdiff", (bindir, a, pts + [rng.randrange(L.ts[0], L.ts[-1] + 10 ** 8) for _ in range(30)])))
     # +Nrs
-    add_ts = sorted(set(t + d for t in L.steps for d in range(-5, 6)))
+    # around every inserted second, and around the table's first row (1972-01-01), which is NOT an insertion
+    add_ts = sorted(set(t + d for t in L.steps for d in range(-5, 6)) | set(L.ts[0] + d for d in (-20, -10, -1, 0, 1, 10)))
     for n in [1, 2, 3, 4, 5, 6, 86400, 86401, 31536000, 63072000] + [rng.randrange(1, 10 ** 8) for _ in range(6 if quick else 80)]:
         for s in (1, -1):
             tasks.append(("radd", (bindir, s * n, add_ts + [rng.randrange(L.ts[0] + 100, L.ts[-1] + 10 ** 8) for _ in range(40)])))
@@ -179,7 +180,7 @@ def main(tier, seed):
                 "distinct_nontrivial = distinct (monitor, sign/zone, era or leaps crossed, side of the boundary)" %
                 (len(L.ts), len(L.steps)))
     ctx.assumptions = ["TAI-UTC before 1972-01-01 is taken as the table's first value (10 s)",
-                       "+Nrs only judged from 1972-01-01 on", "operands are regular UTC seconds (23:59:60 only as a result)"]
+                       "the first table row (1972-01-01, 10 s) is not an inserted second", "operands are regular UTC seconds (23:59:60 only as a result)"]
     ctx.min_evals = 5000
     return ctx.finish()
 
